@@ -45,6 +45,17 @@ const (
 )
 
 func (f *FIXUTCTimestamp) Read(bytes []byte) (err error) {
+	// time.Parse is more lenient than the FIX grammar in the fraction of a second: it also
+	// accepts a comma as separator and a sign in front of the digits.
+	for i, b := range bytes {
+		if i >= len(utcTimestampNanosFormat) {
+			break
+		}
+		if want := utcTimestampNanosFormat[i]; isDecimal(want) != isDecimal(b) || (!isDecimal(want) && want != b) {
+			return errors.New("Invalid Value for Timestamp: " + string(bytes))
+		}
+	}
+
 	switch len(bytes) {
 	// Seconds.
 	case 17:
